@@ -3161,8 +3161,19 @@ namespace awkward {
 
               count_instructions_++;
               if (single_step) {
-                if (is_segment_done()) {
-                  bytecodes_pointer_pop();
+                bytecodes_pointer_pop();
+                if (do_current_depth_ != 0  &&
+                    do_abs_recursion_depth() == recursion_current_depth_) {
+                  if (do_loop_is_step()) {
+                    if (stack_cannot_pop()) {
+                      current_error_ = util::ForthError::stack_underflow;
+                      return;
+                    }
+                    do_i() += stack_pop();
+                  }
+                  else {
+                    do_i()++;
+                  }
                 }
                 return;
               }
@@ -3792,6 +3803,19 @@ namespace awkward {
         if (single_step) {
           if (is_segment_done()) {
             bytecodes_pointer_pop();
+            if (do_current_depth_ != 0  &&
+                do_abs_recursion_depth() == recursion_current_depth_) {
+              if (do_loop_is_step()) {
+                if (stack_cannot_pop()) {
+                  current_error_ = util::ForthError::stack_underflow;
+                  return;
+                }
+                do_i() += stack_pop();
+              }
+              else {
+                do_i()++;
+              }
+            }
           }
           return;
         }
